@@ -167,7 +167,13 @@ func (o *Out) Num(key string) (float64, bool) {
 	return f, ok
 }
 
+// RespTap, if set, sees every HTTP response the drivers produce (status, headers, body). Sequential monitors only.
+var RespTap func(status int, header http.Header, body string)
+
 func finish(rec *httptest.ResponseRecorder, o *Out) {
+	if RespTap != nil {
+		RespTap(rec.Code, rec.Header(), rec.Body.String())
+	}
 	o.Status = rec.Code
 	o.Header = rec.Header()
 	o.Body = rec.Body.String()
@@ -194,6 +200,9 @@ func recoverCrash(o *Out, w *World) {
 }
 
 // ---- token endpoint -----------------------------------------------------------
+
+// ErrAbandoned marks a token request the harness gave up between NewAccessRequest and NewAccessResponse.
+var ErrAbandoned = errors.New("request abandoned by the integrator between the two phases of the token endpoint")
 
 // TokenMut lets a caller touch the access request between NewAccessRequest and NewAccessResponse (e.g. grant scopes).
 type TokenMut func(ar fosite.AccessRequester)
@@ -225,6 +234,11 @@ func (w *World) Token(form url.Values, a Auth, mut ...TokenMut) (out *Out) {
 	}
 	for _, m := range mut {
 		m(ar)
+	}
+	if w.Abandon != nil && w.Abandon(ar) {
+		// the integrator gives the request up between the two phases (its own policy check failed): nothing is written
+		out.Err, out.ErrName = ErrAbandoned, "abandoned"
+		return
 	}
 	resp, err := w.P.NewAccessResponse(ctx, ar)
 	if err != nil {
